@@ -30,6 +30,18 @@ METHODS = ["render", "parse", "renderInline", "parseInline"]
 EXTRA_RENDER = ["paragraph_open", "em_open", "strong_close", "link_open", "list_item_open", "blockquote_open",
                 "heading_open", "hr", "td_open", "s_open", "bullet_list_close"]
 BASE_CFG = {"preset": "commonmark", "options": {"linkify": False}, "enable": [], "disable": []}
+# rare constructs: state parked on the parser/renderer/a module by a failed call tends to show only here
+BATTERY = [
+    "| a | b |\n|:--|--:|\n| 1 | `x\\|y` |\n", "3. x\n4. y\n\n7) z\n", "![a ![b](/i) c](/img \"t\") ![](/e)\n", "a  \nb\\\nc\n",
+    "<div>\n*x*\n</div>\n\n<!-- c -->\n\n<?php x ?>\n", "> " * 18 + "deep\n", "\"q\" 'a' it's -- ... (c) +-\n",
+    "```py info\ncode\n```\n\n~~~\nplain\n~~~\n", "Title\n===\n\n> sub\n> ---\n", "*a **b** c* `d` <http://x.y> &amp; \\* ~~s~~\n",
+    "[r] [R][] ![i][r]\n\n[r]: /u 'T'\n", "- a\n\n  b\n- c\n    - d\n1. e\n", "    code\n\ttab\n\npara\n",
+]
+RULE_POOLS = {"core": ["replacements", "smartquotes", "text_join", "linkify"],
+              "block": ["table", "code", "fence", "blockquote", "hr", "list", "reference", "html_block", "heading", "lheading"],
+              "inline": ["newline", "escape", "backticks", "strikethrough", "emphasis", "link", "image", "autolink",
+                         "html_inline", "entity"],
+              "inline2": ["balance_pairs", "strikethrough", "emphasis", "fragments_join"]}
 
 
 class Plan:
@@ -225,7 +237,8 @@ def _gen_body(rng, depth=0):
         elif r < 0.9:
             body.append(["raise", rng.choice(EXC_NAMES)])
         else:
-            body.append(["ruler", rng.choice(RULERS), rng.choice(["enable", "disable"]), rng.sample(names_pool, 1)])
+            which = rng.choice(RULERS)
+            body.append(["ruler", which, rng.choice(["enable", "disable"]), rng.sample(RULE_POOLS[which], rng.randint(1, 2))])
     return body
 
 
@@ -234,7 +247,7 @@ def gen(rng: random.Random, tier: str) -> dict:
     rec = {"cfg": cfg, "plugins": _gen_plugins(rng),
            "extra_render": rng.sample(EXTRA_RENDER, rng.choice([0, 2, 5])),
            "highlight": rng.choice([None, 0, 0, 1, 2]),
-           "warm": rng.random() < 0.5, "chain_checks": rng.random() < 0.5}
+           "warm": rng.random() < 0.5, "chain_checks": rng.random() < 0.5, "battery": rng.random() < 0.4}
     if rng.random() < 0.12:
         rec["kind"] = "sweep"
         rec["method"] = rng.choice(METHODS)
@@ -492,6 +505,18 @@ class _Run:
             d = _diff_snap(self.base, snapshot(self.md))
             if d:
                 res.fail("STATE_CHANGED", f"end of history: instance differs from its configuration: {d}", "end")
+        if not res.violation and self.rec.get("battery"):
+            self.battery("end of history")
+
+    def battery(self, label):
+        mn = int(self.md.options["maxNesting"])
+        docs = BATTERY + ["[" * (mn - 1) + "a" + "]" * (mn - 1) + "(/u)\n", "[" * mn + "a" + "]" * mn + "(/u)\n",
+                          "*" * 30 + "a" + "*" * 30 + "\n"]
+        self.res.count("battery_runs")
+        for d in docs:
+            self.same_as_twin("render", d, f"{label}: battery", "battery")
+            if self.res.violation:
+                return
 
     def run_sweep(self):
         res, rec = self.res, self.rec
@@ -513,6 +538,8 @@ class _Run:
                 res.violation["at"] = {"site": list(s), "abs": i, "exc": exc}
                 return
         self.same_as_twin("render", "a *b* [c]\n\n> - d\n\n[c]: /u\n", "after the sweep: probe", "probe")
+        if not res.violation and rec.get("battery"):
+            self.battery("after the sweep")
 
 
 class C14(Engine):
@@ -575,7 +602,7 @@ class C14(Engine):
                 if cand and len(cand) < n:
                     yield {**rec, "ops": cand}
         for key, simple in (("plugins", []), ("extra_render", []), ("highlight", None), ("warm", False),
-                            ("chain_checks", False), ("cfg", dict(BASE_CFG))):
+                            ("chain_checks", False), ("battery", False), ("cfg", dict(BASE_CFG))):
             if rec.get(key) != simple:
                 yield {**rec, key: simple}
         for j, op in enumerate(ops):
